@@ -211,7 +211,7 @@ def insert_at(s, path, make):
     return tuple(l)
 
 
-def inject(rng, script, stmt_maker, guard=None):
+def inject(rng, script, stmt_maker, guard=None, gchk=0):
     """Insert a statement at a random position. `stmt_maker(nvars, rest)` returns the new sub-script given the
     (already shifted if it binds) rest. `guard=(src, value)`: only when source `src` currently equals `value`."""
     path, nv = rng.choice(list(positions(script)))
@@ -221,7 +221,7 @@ def inject(rng, script, stmt_maker, guard=None):
             return stmt_maker(nv, rest)
         src, val = guard
         rest1 = shift(rest, nv, 1)
-        return ("read", src, 0, ("if", ("=", ("v", nv), ("k", val)), stmt_maker(nv + 1, rest1), rest1))
+        return ("read", src, gchk, ("if", ("=", ("v", nv), ("k", val)), stmt_maker(nv + 1, rest1), rest1))
     return insert_at(script, path, make)
 
 
@@ -238,14 +238,14 @@ def writer_stmt(kind, r, c, val):
     return mk
 
 
-def history_mixed(rng, p, sessions=None, clean="clean", report_all=True, cleannodes=False):
+def history_mixed(rng, p, sessions=None, clean="clean", report_all=True, cleannodes=False, bu_prob=0.4):
     """top-down and bottom-up sessions mixed, external changes (sources mostly), reference builds."""
     lines = [f"set {s} {rng.randint(0, 3)}" for s in p.sources]
     n = len(p.tasks)
     changed = []
     for _ in range(sessions or rng.randint(2, 5)):
         lines.append("session")
-        if changed and rng.random() < 0.4:
+        if changed and rng.random() < bu_prob:
             lines.append("bu " + " ".join(map(str, changed)))
         roots = [rng.randint(1, n) for _ in range(rng.randint(1, 3))]
         lines += [f"req {t}" for t in roots]
@@ -314,13 +314,13 @@ def case_cycle(rng):
     return p.lines() + hist, meta
 
 
-def case_failing_checker(rng):
+def case_failing_checker(rng, bu_prob=0.4, stamp_failures=True):
     """C18: resource checkers that fail at validation time (any position, several per session, disappearing later)."""
     p = gen_program(rng, allow_wrote=True)
     nfail = 0
     for (t, r), c in list(p.rchk.items()):
         if r in p.sources and rng.random() < 0.6:
-            p.rchk[(t, r)] = (10 if rng.random() < 0.8 else 30) + rng.randint(0, 3)
+            p.rchk[(t, r)] = (10 if (rng.random() < 0.8 or not stamp_failures) else 30) + rng.randint(0, 3)
             nfail += 1
 
     def rewrite(t, s):
@@ -331,7 +331,37 @@ def case_failing_checker(rng):
         if k == "if": return ("if", s[1], rewrite(t, s[2]), rewrite(t, s[3]))
         return s
     for t in p.tasks: p.tasks[t] = rewrite(t, p.tasks[t])
-    return p.lines() + history_mixed(rng, p, sessions=rng.randint(3, 6)), dict(no_abort_expected=True, failing_checkers=nfail)
+    return p.lines() + history_mixed(rng, p, sessions=rng.randint(3, 6), bu_prob=bu_prob), dict(no_abort_expected=True, failing_checkers=nfail)
+
+
+def case_bu_fail(rng):
+    """bottom-up histories (complete reporting) of programs whose resource checkers fail at validation time"""
+    p = gen_program(rng, allow_wrote=True)
+    for (t, r), c in list(p.rchk.items()):
+        if r in p.sources and rng.random() < 0.6:
+            p.rchk[(t, r)] = 10 + rng.randint(0, 3)
+
+    def rewrite(t, s):
+        k = s[0]
+        if k == "read": return ("read", s[1], p.rchk.get((t, s[1]), s[2]), rewrite(t, s[3]))
+        if k == "req": return ("req", s[1], s[2], rewrite(t, s[3]))
+        if k in ("write", "wrote"): return (k, s[1], s[2], s[3], rewrite(t, s[4]))
+        if k == "if": return ("if", s[1], rewrite(t, s[2]), rewrite(t, s[3]))
+        return s
+    for t in p.tasks: p.tasks[t] = rewrite(t, p.tasks[t])
+    return p.lines() + history_bu(rng, p), dict(no_abort_expected=True)
+
+
+def case_panic_only(rng, exact=False, bu_prob=0.4):
+    """a task panic at any operation of any task of an otherwise well-formed program, guarded by a source value, followed
+    by further sessions after the cause has or has not been removed."""
+    p = gen_program(rng, exact=exact)
+    t = rng.choice(sorted(p.tasks))
+    guard = (rng.choice(p.sources), rng.randint(0, 3))
+    # the guard reads its source with the checker the task already uses for it (one checker per target per execution)
+    p.tasks[t] = inject(rng, p.tasks[t], lambda nv, rest: ("panic",), guard if rng.random() < 0.85 else None,
+                        gchk=p.rchk.setdefault((t, guard[0]), 0))
+    return p.lines() + history_mixed(rng, p, sessions=rng.randint(3, 6), cleannodes=True, bu_prob=bu_prob), dict(injected=f"panic in task {t} guard {guard}")
 
 
 def case_panic(rng):
@@ -339,11 +369,7 @@ def case_panic(rng):
     cause has or has not been removed."""
     r = rng.random()
     if r < 0.5:
-        p = gen_program(rng)
-        t = rng.choice(sorted(p.tasks))
-        guard = (rng.choice(p.sources), rng.randint(0, 3))
-        p.tasks[t] = inject(rng, p.tasks[t], lambda nv, rest: ("panic",), guard if rng.random() < 0.85 else None)
-        return p.lines() + history_mixed(rng, p, sessions=rng.randint(3, 6), cleannodes=True), dict(injected=f"panic in task {t} guard {guard}")
+        return case_panic_only(rng)
     f = rng.choice([case_hidden, case_overlap, case_cycle])
     body, meta = f(rng)
     # add the from-scratch build of all known tasks after every reference build
@@ -430,7 +456,8 @@ def case_bu_dense(rng):
         if rng.random() < 0.7:
             u = rng.randint(t + 1, n)
             src = rng.choice(p.sources)
-            p.tasks[t] = inject(rng, p.tasks[t], binder("req", u, p.ochk.setdefault((t, u), rng.choice([0, 0, 4]))), (src, rng.randint(0, 2)))
+            p.tasks[t] = inject(rng, p.tasks[t], binder("req", u, p.ochk.setdefault((t, u), rng.choice([0, 0, 4]))), (src, rng.randint(0, 2)),
+                                gchk=p.rchk.setdefault((t, src), 0))
     lines = [f"set {s} {rng.randint(0, 2)}" for s in p.sources]
     lines += ["session"] + [f"req {t}" for t in range(1, n + 1)] + ["endsession"]
     for _ in range(rng.randint(2, 4)):
